@@ -45,7 +45,8 @@ def correspond(chk: Check) -> None:
         k = 100
         for t, kind, idx in res.pkts:
             k += 1
-            evs.append((us(t), k, f"{us(t)}:{kind}:{by_pool[idx]}"))
+            if idx in by_pool:
+                evs.append((us(t), k, f"{us(t)}:{kind}:{by_pool[idx]}"))
         for t, kind in res.conn:
             k += 1
             evs.append((us(t), k, f"{us(t)}:{kind}"))
@@ -56,7 +57,7 @@ def correspond(chk: Check) -> None:
         outs = []
         for i, (t, kind, txt) in sorted(res.outcomes.items(), key=lambda kv: (kv[1][0], kv[0])):
             q, r = qos.POOL[ep.calls[i]["cmd"]]
-            o = "failed" if kind == "err" else ("reply" if txt == r else "echo")
+            o = "failed" if kind == "err" else ("reply" if txt[:2] in ("RP", " I") and txt[37:41] == q[37:41] and r is not None and txt[:2] == r[:2] else "echo")
             outs.append(f"{i}={o}@{us(t)}")
         impl = "ok\t" + w + "\t" + ",".join(outs) + "\t" + res.final_state
         D.add("qos.run", [fails, ";".join(e[2] for e in evs), str(us(60.0))], impl, meta=ep.to_json())
